@@ -406,41 +406,87 @@ def getMapValue (vars : List (String × Val)) (path : String) (id : Nat) (it : I
 
 /-! ### template functions in preprocessor mappings (`templater.ParseFunc`, `ExecTemplateFuncWithVariables`) -/
 
+/-- the characters and choices of `templater.parseStr` (regenerated: `Gen.C15Walk.strFnFacts`) -/
+structure StrFnFacts where
+  openC : Char          -- `strings.Split(v, "(")`: the name ends at the first one
+  closeC : Char         -- `strings.TrimSuffix(…, ")")`: ONE trailing one is removed
+  sepC : Char           -- `strings.Split(v, ",")`
+  trimArgs : Bool       -- `args[i] = strings.TrimSpace(args[i])`
+  emptyNoArgs : Bool    -- `if len(args) == 1 && args[0] == "" { return name, nil }`
+deriving Repr, DecidableEq
+
+def parseStrBy (f : StrFnFacts) (v : List Char) : List Char × List (List Char) :=
+  if !v.contains f.openC then (v, []) else
+  let name := v.takeWhile (· != f.openC)
+  let rest := (v.dropWhile (· != f.openC)).drop 1
+  let rest := if rest.getLast? == some f.closeC then rest.dropLast else rest
+  let args := splitOnC f.sepC rest
+  if f.emptyNoArgs && args.length == 1 && args.head? == some [] then (name, [])
+  else (name, if f.trimArgs then args.map trimSpace else args)
+
+/-- `parseStr` as it is in the repository -/
+def strFnFacts : StrFnFacts := { openC := '(', closeC := ')', sepC := ',', trimArgs := true, emptyNoArgs := true }
+
 /-- `templater.parseStr`: `name(arg, …)` → name (NOT trimmed) and trimmed arguments; no `(` or an empty argument
 text → no arguments; only ONE trailing `)` is removed -/
-def parseStrF (v : List Char) : List Char × List (List Char) :=
-  if !v.contains '(' then (v, []) else
-  let name := v.takeWhile (· != '(')
-  let rest := (v.dropWhile (· != '(')).drop 1
-  let rest := if rest.getLast? == some ')' then rest.dropLast else rest
-  let args := splitOnC ',' rest
-  if args.length == 1 && args.head? == some [] then (name, []) else (name, args.map trimSpace)
+def parseStrF (v : List Char) : List Char × List (List Char) := parseStrBy strFnFacts v
 
-/-- the keys of `templater.GetFuncs()` -/
+/-- the keys of `templater.GetFuncs()` (regenerated: `Gen.C15Walk.funcNames`) -/
 def funcNames : List String := ["randInt", "randString", "uuid"]
+
+/-- what an argument of a template function becomes -/
+inductive ArgRule where
+  | value      -- the value found in the template variables
+  | literal    -- the argument text itself
+  | nilValue   -- Go `nil`
+deriving Repr, DecidableEq
+
+/-- how `Preprocessor.Process` resolves one mapping entry and `ExecTemplateFuncWithVariables` its arguments
+(regenerated: `Gen.C15Walk.entryCode`) -/
+structure EntryCode where
+  funcFirst : Bool        -- `fun, args := templater.ParseFunc(v); if fun != nil { exec } else { path }`
+  argOk : ArgRule         -- `if err == nil { a[i] = v }`
+  argErr : ArgRule        -- `else { a[i] = args[i] }`
+deriving Repr, DecidableEq
+
+def argVal (r : ArgRule) (a : String) (v : Val) : Val :=
+  match r with
+  | .value => v
+  | .literal => .str a
+  | .nilValue => .nil
 
 /-- `ExecTemplateFuncWithVariables`: every argument is looked up as a path in the template variables (with the
 iterator: a `[next]` inside an argument draws a row); an argument that does not resolve stays the literal text.
 (An argument whose lookup fails AFTER a draw loses that draw in the model: `Outcome.err` carries no iterator.) -/
-def resolveArgs (vars : List (String × Val)) (id : Nat) : List String → Iter → List Val × Iter
+def resolveArgsBy (c : EntryCode) (vars : List (String × Val)) (id : Nat) : List String → Iter → List Val × Iter
   | [], it => ([], it)
   | a :: rest, it =>
     match getMapValue vars a id it with
-    | .ok (v, it') => let r := resolveArgs vars id rest it'; (v :: r.1, r.2)
-    | _ => let r := resolveArgs vars id rest it; (.str a :: r.1, r.2)
+    | .ok (v, it') => let r := resolveArgsBy c vars id rest it'; (argVal c.argOk a v :: r.1, r.2)
+    | _ => let r := resolveArgsBy c vars id rest it; (argVal c.argErr a .nil :: r.1, r.2)
 
 /-- one mapping entry of `Preprocessor.Process`: a template function when the text before the first `(` names one,
 a path otherwise. `fn` is the function library (random: part of the `World`); `none` = the function returns an error. -/
-def resolveEntry (fn : String → List Val → Option String) (vars : List (String × Val)) (v : String) (id : Nat)
-    (it : Iter) : Outcome (Val × Iter) :=
+def resolveEntryBy (c : EntryCode) (fn : String → List Val → Option String) (vars : List (String × Val)) (v : String)
+    (id : Nat) (it : Iter) : Outcome (Val × Iter) :=
   let p := parseStrF v.toList
   let name := String.ofList p.1
-  if funcNames.contains name then
-    let r := resolveArgs vars id (p.2.map String.ofList) it
+  if c.funcFirst && funcNames.contains name then
+    let r := resolveArgsBy c vars id (p.2.map String.ofList) it
     match fn name r.1 with
     | some s => .ok (.str s, r.2)
     | none => .err "template-func"
   else getMapValue vars v id it
+
+/-- the entry resolution as it is in the repository -/
+def entryCode : EntryCode := { funcFirst := true, argOk := .value, argErr := .literal }
+
+def resolveArgs (vars : List (String × Val)) (id : Nat) : List String → Iter → List Val × Iter :=
+  resolveArgsBy entryCode vars id
+
+def resolveEntry (fn : String → List Val → Option String) (vars : List (String × Val)) (v : String) (id : Nat)
+    (it : Iter) : Outcome (Val × Iter) :=
+  resolveEntryBy entryCode fn vars v id it
 
 /-- `Preprocessor.Process`: every mapping entry is resolved against the template variables.
 Go iterates the mapping in map order; the model uses the given (sorted) order — the result map is the same
